@@ -206,6 +206,24 @@ CHECKS = {
         "are only required to conserve ACEs.",
         "DESIGN.md 4/C15",
     ),
+    "C16": (
+        "model_checking",
+        "(A) enumeration of objects of every exported class with a STRUCTURAL independence oracle "
+        "(reachable mutable object graphs of source and copy must be disjoint) plus mutation of "
+        "every reachable container; (B) explicit-state exploration of all transformation sequences "
+        "up to a depth from seed ACLs with an identifier/note stability invariant on every step",
+        "(A) copy() and Class(**data()) for ~2900 objects (ports, protocols, options, wildcards, "
+        "addresses with members, group members, address groups, remarks, the deviation<=1 ACE space "
+        "x switch settings, item lists <=3 as Acl flat/grouped+numbered and as AceGroup): equal, "
+        "same text, same data, same note object, fresh uuid, no shared mutable object, and poking "
+        "each list/dict/set of one side never changes the other. (B) every sequence of <=2 (quick) "
+        "/ <=3 (thorough) of 12 operations (platform, type, switches, resequence, sort, reverse, "
+        "group, ungroup) from 3 seed ACLs: uuid and note of the ACL, every item, block, field object "
+        "and group member that existed before and was not replaced by a port split are unchanged.",
+        "Trusted: the definition of 'mutable' in the walker. Known findings K03 (IOS /0 prefix, "
+        "pinned by tests) and K04 (field objects rebuilt) are listed in known_findings.json.",
+        "DESIGN.md 4/C16",
+    ),
     "C19": (
         "exploration",
         "complete enumeration of (source expression, destination expression) pairs x context "
